@@ -228,6 +228,12 @@ def circuitMatrix {α : Type} [Add α] [Zero α] [Mul α] [DecidableEq α] (fiel
   | .ok none => .error .other
   | .ok (some M) => .ok M
 
+/-! ### `Circuit.inverse` (circuit.py:78-82): `for gate in reversed(self.gates): circ.append_gate(gate.inverse())` -/
+
+/-- the inverse circuit: the reversed list of the gates' inverses. `inv` is the per-gate `inverse()`
+(a control instruction has none: the code calls `.inverse()` on it and raises `AttributeError`). -/
+def circuitInverse {G : Type} (inv : G → G) (c : List G) : List G := c.reverse.map inv
+
 /-! ### Builder histories: the caller keeps handles to gate objects and may mutate them at any time -/
 
 /-- one call of the builder API, or a mutation of one of the caller's gate objects.
